@@ -13,6 +13,7 @@ import WpModel.Model.ExpandersC07
 import WpModel.Model.SheetC07
 import WpModel.Model.KeywordsC07
 import WpModel.Model.DescriptorsC07
+import WpModel.Model.NumericC07
 
 namespace Wp.Drive.C07
 open Wp Wp.Decl
@@ -413,19 +414,20 @@ def handle (cmd : String) (args : List Sx) : Option String :=
     runGeneric "expand_text_align" (← str? name) (← head? hd) raw (← vtable? tbl)
   | "descriptors", [rule, .list items] => do
     let parsed ← allSome (fun x => match x with
-      | .list [k, n, imp, r] => do
+      | .list [k, n, imp, nt, r] => do
         let res : R (Option String) ← (match r with
           | .atom "none" => some (.ok none)
           | .list [.atom "ok", .atom v] => some (.ok (some v))
           | .atom s => (Fail.parse s).map .error
           | _ => none)
-        pure ((← kind? k), (← str? n), (← imp.bool?), res)
+        pure ((← kind? k), (← str? n), (← imp.bool?), (← nt.bool?), res)
       | _ => none) items
     let indexed := parsed.zipIdx
-    let descs : List Desc := indexed.map fun ((k, n, imp, _), i) => { kind := k, name := n, important := imp, id := i }
+    let descs : List Desc := indexed.map fun ((k, n, imp, nt, _), i) =>
+      { kind := k, name := n, important := imp, noTokens := nt, id := i }
     let validate (_ : String) (d : Desc) : R (Option String) :=
       match indexed.find? (fun (_, i) => i == d.id) with
-      | some ((_, _, _, r), _) => r
+      | some ((_, _, _, _, r), _) => r
       | none => .error (.other "NoTableEntry")
     pure (match preprocessDescriptors (← str? rule) validate descs with
       | .ok outs => "ok" ++ String.join (outs.map fun (n, v) => " (" ++ encodeAtom n ++ " " ++ v ++ ")")
@@ -450,6 +452,27 @@ def handle (cmd : String) (args : List Sx) : Option String :=
       | none => "not-keyword-only"
       | some none => "invalid"
       | some (some kws) => "ok" ++ String.join (kws.map fun k => " " ++ encodeAtom k))
+  | "numeric-validator", [name, .list toks] => do
+    let ntok? (x : Sx) : Option Num07.NTok := match x with
+      | .list [iv, kw, lt] => do
+        let kw : Option String ← kw.atom?.map fun a => match a.toList with
+          | 'i' :: ':' :: rest => some (decodeAtom (String.ofList rest))
+          | _ => none
+        pure { intValue := ← optInt? iv, keyword := kw, ltok := ← ltok? lt }
+      | _ => none
+    pure (match Num07.validate (← str? name) (← allSome ntok? toks) with
+      | none => "not-numeric"
+      | some none => "invalid"
+      | some (some (.int n)) => "int " ++ toString n
+      | some (some (.kw k)) => "kw " ++ encodeAtom k
+      | some (some (.num q)) => "num " ++ showRat q
+      | some (some (.len s)) => showSpec (some s))
+  | "get-resolution", [tok, impl] => do
+    let implQ := impl.rat?.getD 0
+    pure (match Num07.getResolution (← ltok? tok) with
+      | none => "none"
+      | some q => "ok " ++ (if q < 0 then "neg" else if q == 0 then "zero" else "pos") ++ " " ++
+          (match relation implQ q with | "exact" => (if q.den ≤ 1000000 then "exact" else "near") | r => r))
   | "sheet", [ig, .list rules] => do
     let (events, ig') := Sheet.processRules (← ig.bool?) (← allSome rule? rules)
     let _ := ig'
@@ -584,6 +607,14 @@ def handle (cmd : String) (args : List Sx) : Option String :=
       | .ok .parent => "parent"
       | .ok .initial => "initial"
       | .error f => f.render)
+  -- Pending.solve: a sequence of calls on one shared object
+  | "pending-solve", [.list calls] => do
+    let calls ← allSome (fun x => match x with
+      | .list [nt, r] => do pure ((← nt.bool?), (← res? r))
+      | _ => none) calls
+    let outs := Pending.solveSeq false calls
+    pure (" ".intercalate (outs.map fun o =>
+      (match o.result with | .ok v => "ok:" ++ v | .error f => f.render) ++ (if o.warned then "/w" else "/-")))
   -- var()
   | "check-var", [tok] => do pure (toString (Var.checkVar (← tk? tok)))
   | "parse-function", [tok] => do
@@ -591,7 +622,7 @@ def handle (cmd : String) (args : List Sx) : Option String :=
       | some (l, a) => "ok " ++ encodeAtom l ++ " " ++ showToks a
       | none => "none")
   | "resolve", [fuel, env, tok] => do
-    pure (match Var.resolveVar (← env? env) (← fuel.nat?) (← tk? tok) with
+    pure (match Var.resolveVar (← env? env) [] (← fuel.nat?) (← tk? tok) with
       | .ok none => "none"
       | .ok (some ts) => "ok " ++ showToks ts
       | .error f => f.render)
